@@ -161,6 +161,16 @@ fn no_backtracking(sn: &Rc<RefCell<SolutionNode>>) -> bool {
     sn.borrow().no_backtracking
 }
 
+/// Reads the no_backtracking flag of a node which is mutably borrowed
+/// by the caller.
+///
+/// While a node is searching for a solution, a cut (!) executed by one of
+/// its descendants sets the flag through a raw pointer.
+/// See [set_no_backtracking()](../solution_node/struct.SolutionNode.html#method.set_no_backtracking).
+pub fn cut_executed(sn: &Rc<RefCell<SolutionNode>>) -> bool {
+    unsafe { (*sn.as_ptr()).no_backtracking }
+}
+
 /// Finds the first and next solutions of the given solution node.
 ///
 /// This method fetches facts and rules from the knowledge base,
@@ -279,6 +289,9 @@ pub fn next_solution<'a>(sn: Rc<RefCell<SolutionNode<'a>>>)
 
             sn_ref.child = None;
             loop {
+
+                // A cut in the body of the previous rule commits to that rule.
+                if cut_executed(&sn) { return None; }
 
                 if sn_ref.rule_index >= sn_ref.number_facts_rules { return None; }
 
